@@ -1379,7 +1379,7 @@ mod imp {
       l.count("directed_scenarios", 1);
       run_index(l, rng, scratch, &vfs, &commits, Some(reqs), 0, true, false, compact, false);
     });
-    let n = ctx.n(260, 6000);
+    let n = ctx.n(260, 40_000);
     ctx.run_cases("idx", n, |rng: &mut Rng, l: &mut Local, scratch| {
       let big = rng.chance(0.12);
       let vfs = gen_vfs(rng, big);
